@@ -77,7 +77,9 @@ def real_op_cases(tier, seed, f32=False):
                          {"op": "backward", "args": [11]}]
                 cases.append(steps)
     # softmax is row-wise: rows at very different levels in one array (each row's own exponentials are ordinary numbers)
-    for levels in ([-70.0, 30.0], [-40.0, 40.0], [60.0, -60.0, 0.0], [-75.0, -20.0, 25.0, 70.0], [5.0, -80.0]):
+    # (spreads of several hundred only mean something in double precision; in single precision they are out of range)
+    for levels in ([-70.0, 30.0], [-40.0, 40.0], [60.0, -60.0, 0.0], [-75.0, -20.0, 25.0, 70.0], [5.0, -80.0]) + \
+            (() if f32 else ([-400.0, 400.0], [300.0, -350.0, 0.0], [650.0, -650.0])):
         for n in (2, 3):
             d = [len(levels), n]
             vals = [lv + rnd.uniform(-1.0, 1.0) for lv in levels for _ in range(n)]
@@ -219,6 +221,40 @@ def real_model_cases(tier, seed, f32=False, iters=(2, 6), n=None):
     return cases
 
 
+def real_nonfinite_loss_cases(tier, seed, f32=False):
+    """C18: an iteration whose loss is not finite (an infinite / NaN target element) followed by ordinary iterations
+    without an update in between (evaluation passes): once the model has moved on, the input and the target of the
+    bad iteration own their buffers again.  Values are out of range here and not judged; structure is."""
+    rnd = random.Random(seed)
+    cases = []
+    for bad in (float("inf"), float("-inf"), float("nan")):
+        for nin, nout in ((1, 1), (2, 2), (3, 1)):
+            for cost in ("mse", "ce"):
+                act = "softmax" if cost == "ce" else rnd.choice(["none", "sigmoid", "relu"])
+                if cost == "ce" and nout == 1:
+                    continue
+                init = [rnd.uniform(-1, 1) for _ in range(12)]
+                steps = [RESET, {"op": "dense_new", "layer": 1, "in": nin, "out": nout, "act": act, "ph": [100, 101],
+                                 "init": rt([12], init, f32)},
+                         {"op": "model_new", "layers": [1], "lr": rsc(0.1, f32), "cost": cost}]
+                h = 200
+                for it in range(3):
+                    x, y, out = h, h + 1, h + 2
+                    steps.append(rleaf(x, [2, nin], draw(rnd, 2 * nin, "any"), f32=f32))
+                    tgt = draw(rnd, 2 * nout, "pos")
+                    if it == 0:
+                        tgt[rnd.randrange(len(tgt))] = bad
+                    steps.append(rleaf(y, [2, nout], tgt, f32=f32))
+                    steps += [{"op": "m_forward", "args": [x], "res": out}, {"op": "m_backward", "args": [y]},
+                              {"op": "drop", "args": [out]}]
+                    if it >= 1:
+                        # the model has moved on from iteration it-1
+                        steps += [{"op": "into_vec", "args": [h - 10]}, {"op": "into_vec", "args": [h - 9]}]
+                    h += 10
+                cases.append(steps)
+    return cases
+
+
 def real_layer_cases(tier, seed, f32=False):
     """C15 in the real domain: activations sigmoid / softmax, cross-entropy cost, model value"""
     rnd = random.Random(seed)
@@ -232,6 +268,11 @@ def real_layer_cases(tier, seed, f32=False):
                 h = 10
                 for b in ([], [1], [3]):
                     steps.append(rleaf(h, b + [nin], draw(rnd, prod(b) * nin, "any"), f32=f32))
+                    steps.append({"op": "layer_forward", "layer": 1, "args": [h], "res": h + 1})
+                    h += 2
+                # inputs that drive the pre-activation far from zero (saturating sigmoid, peaked softmax)
+                for scale in (8.0, 20.0, 35.0):
+                    steps.append(rleaf(h, [2, nin], [scale * v for v in draw(rnd, 2 * nin, "nz")], f32=f32))
                     steps.append({"op": "layer_forward", "layer": 1, "args": [h], "res": h + 1})
                     h += 2
                 cases.append(steps)
